@@ -95,6 +95,16 @@ func c03Run(cfg Cfg, setup []string, src string) c03Obs {
 }
 
 func c03Input(r *fw.Rand) (string, string) {
+	if r.P(1, 400) {
+		// long programs with many instructions per byte, followed by tails of every length: what
+		// the compiler accepts must not depend on how much text follows
+		unit := r.Pick([]string{"d+", "2d+", "x+", "1+", "f+", "d6+"})
+		n := fw.PickT(r, []int{300, 440, 600, 800, 1000})
+		m := fw.PickT(r, []int{0, 200, 610, 1200})
+		head := strings.Repeat(unit, n) + strings.Repeat("1+", m) + "1"
+		tail := " " + strings.Repeat(r.Pick([]string{"x", "理", " r"}), fw.PickT(r, []int{0, 1, 40, 85, 122, 500, 1802, 4000}))
+		return head + tail, "dense-long"
+	}
 	var head string
 	fam := ""
 	switch r.Intn(6) {
